@@ -286,6 +286,8 @@ def run(pid, args, seed, work, t0):
     ctx.generated = gen_json
     literals = mined_literals()
     ctx.literals = literals
+    # which modelled functions differ (up to renaming / comments) from the tree the model was written for
+    changed_fns = changed_functions(pid, gen_json)
     ctx.byte_literals = mined_byte_literals()
     ctx.gen = gen.Gen(seed, literals)
     broken = []            # broken obligations / lanes
@@ -348,6 +350,18 @@ def run(pid, args, seed, work, t0):
         else:
             broken.append({'kind': 'oracle', 'what': 'calls into pamqp hang: ' + gave_up[:400], 'detail': real.HANGS[:3]})
         results.append(r)
+    if changed_fns and not broken and not gave_up and not any(r.violations for r in results) and not ctx.thorough:
+        # the code this property is anchored in was edited: search harder before saying it still holds
+        broken_before = list(broken)
+        ctx.thorough = True
+        ctx.exhaustive_versions = False
+        ctx.gen = gen.Gen(seed + 3000003, literals)
+        for o in reg['oracles']:
+            try:
+                results.append(getattr(oracles, 'oracle_' + o)(ctx))
+            except real.GiveUp as e:
+                gave_up = str(e)
+        ctx.thorough = False
     if broken and not gave_up and not any(r.violations for r in results) and not ctx.thorough:
         # an obligation broke: widen the search before concluding that no failing input exists
         ctx.thorough = True
@@ -397,6 +411,7 @@ def run(pid, args, seed, work, t0):
             'broken_obligations': broken,
             'exhaustive': pid in ('C14', 'C17'),
             'mined_literals': len(literals),
+            'changed_functions_vs_baseline': changed_fns,
         },
         'assumptions': TRUSTED_BASE,
         'wall_s': round(time.time() - t0, 2),
@@ -457,6 +472,34 @@ def mined_literals():
                 if abs(node.value) < 2 ** 70:
                     out.add(node.value)
     return sorted(out)
+
+
+ANCHOR_MODULES = None
+
+
+def changed_functions(pid, gen_json):
+    """modelled functions (in the files the property is anchored in) whose normalised AST differs from
+    baseline_fingerprints.json; only used to intensify the failing-input search, never a verdict"""
+    global ANCHOR_MODULES
+    try:
+        base = json.load(open(os.path.join(ROOT, 'baseline_fingerprints.json')))
+    except Exception:  # noqa
+        return []
+    if ANCHOR_MODULES is None:
+        ANCHOR_MODULES = {}
+        try:
+            for line in open(os.path.join(ROOT, 'properties.jsonl')):
+                p = json.loads(line)
+                ANCHOR_MODULES[p['id']] = sorted(set(os.path.basename(f)[:-3] for f in p['anchors'].get('files', []) if f.endswith('.py')))
+        except Exception:  # noqa
+            pass
+    cur = gen_json.get('fingerprints', {})
+    mods = ANCHOR_MODULES.get(pid, [])
+    out = []
+    for k in sorted(set(base) | set(cur)):
+        if base.get(k) != cur.get(k) and k.split('.')[0] in mods:
+            out.append(k)
+    return out
 
 
 def mined_byte_literals():
